@@ -35,11 +35,13 @@
     filler_option_children_moved filler_textarea_none_erased
     filler_confined_partial filler_confined_stream_partial filler_input_confined filler_option_confined
     filler_fills_textarea filler_nested_form_unfilled
+    buffer_feedback_diverges buffer_two_writers_ill_nested
 -/
 import Genshi.Lemmas.TfSegs2
 import Genshi.Lemmas.TfChains
 import Genshi.Lemmas.TfFill
 import Genshi.Lemmas.TfFillSpec
+import Genshi.Lemmas.TfLazyDiv
 namespace Genshi.Props.C20
 open Genshi Genshi.Tf
 
@@ -348,6 +350,30 @@ theorem attr_wrap_emits_empty_wrapper :
       [.start (qn 'r') [], .start (qn 'a') [(qn 'x', ['1'])], .end_ (qn 'a'), .end_ (qn 'r')] =
     some [.start (qn 'r') [], .start (qn 'w') [], .end_ (qn 'w'), .start (qn 'a') [(qn 'x', ['1'])],
       .end_ (qn 'a'), .end_ (qn 'r')] := by decide
+
+/-! ## the chain as the code runs it: lazily interleaved links (`Model/TfLazy.lean`) -/
+
+/-- Known finding C20-buffer-feedback: `Transformer('a').copy(b).append(b).copy(b, accumulate=True)` on
+    `<r><a/></r>` does not terminate — for EVERY fuel the lazy model runs out of it: `append(b)`
+    iterates the live event list of `b` while the accumulate-copy after it, in the middle of the
+    selection `<a>…</a>`, appends every injected event to `b`. -/
+theorem buffer_feedback_diverges (F : Nat) : runLazy F fbOps (fun _ => []) (markAll fbDoc) = .div :=
+  feedback_diverges F
+
+/-- the unmarked output of the lazily evaluated chain -/
+def lazyOut (F : Nat) (ops : List Op) (s : Stream) : Option Stream :=
+  match runLazy F ops (fun _ => []) (markAll s) with
+  | .ok (o, _) => some (unmark o)
+  | _ => none
+
+/-- Known finding C20-buffer-two-writers: `Transformer('a').cut(b).end().cut(b, accumulate=True).after(b)`
+    on `<r><a/></r>`: the two cuts run interleaved, the first resets `b` under the second, which ends
+    up holding `<a></a></r>`; injecting it is ill nested. (The stage-wise reading of the same chain
+    is well nested: the interleaving is what breaks it.) -/
+theorem buffer_two_writers_ill_nested :
+    ∃ out, lazyOut 0 [.select [.none, .hit, .none], .cut 0 false, .endSel, .cut 0 true, .after (.buf 0)]
+      [.start (qn 'r') [], .start (qn 'a') [], .end_ (qn 'a'), .end_ (qn 'r')] = some out ∧ ¬ WellNested out :=
+  ⟨[.start (qn 'a') [], .end_ (qn 'a'), .end_ (qn 'r')], by decide, by decide⟩
 
 /-! ## the form filler -/
 
